@@ -334,6 +334,37 @@ pub fn run(ctx: &Ctx) -> i32 {
             }
         }
         pipeline::set_aux_variant(0);
+        // 1b'. the error bound attribute is a genuine kernel attribute file: st_size says 4096 (sysfs) or 0 (procfs)
+        // whatever the content is, and the content has no EOF marker other than a short read
+        for attr in ["/sys/class/net/lo/mtu", "/proc/sys/kernel/pid_max", "/sys/kernel/mm/transparent_hugepage/khugepaged/pages_to_scan"] {
+            let value: i64 = match std::fs::read_to_string(attr).ok().and_then(|t| t.trim().parse().ok()) {
+                Some(v) => v,
+                None => continue,
+            };
+            poller_cases += 1;
+            let spec = TrackSpec { ref_id: ID, leap: 0, ref_time_ns: NOW_REAL - 1_000_000_000, offset_bits: encode_float(0.0002), delay_bits: encode_float(0.00005), disp_bits: encode_float(0.00001), interval_bits: encode_float(16.0) };
+            vclock::arm(VClock { real_ns: NOW_REAL, mono_ns: NOW_MONO, auto_advance_ns: 0, fail_errno: 0, fail_clock: -1 });
+            let r = std::panic::catch_unwind(std::panic::AssertUnwindSafe(|| {
+                let mut life = PollerLife::new();
+                let msgs = life.poll_once(Some(clock_bound_d::PhcInfo { refid: ID, sysfs_error_bound_path: attr.into() }), Query { answer: Answer::Wire(pipeline::tracking_wire(&spec, 9)), latency_ns: 0 });
+                pipeline::published_for(msgs, 1000)
+            }));
+            vclock::disarm();
+            let (lo, hi) = accepted_bound(&spec, value).unwrap();
+            let doc = json!({"route": "through the poller, error bound read from a genuine kernel attribute", "attribute": attr, "value": value, "report": spec_json(&spec, value)});
+            match r {
+                Ok(recs) if recs.len() == 1 => {
+                    tally.evaluated += 1;
+                    tally.judged += 1;
+                    let g = recs[0].bound as i128;
+                    if recs[0].status != 1 || g < lo || g > hi {
+                        tally.add("C07:phc-term-missing-or-too-small", format!("the PHC error bound is read from {attr} (a kernel attribute holding {value}): published status {} and bound {g} ns, expected Synchronized with {lo}..{hi} ns", recs[0].status), doc);
+                    }
+                }
+                Ok(recs) => tally.add("C07:poller-route-publications", format!("{} publications for one poll", recs.len()), doc),
+                Err(_) => tally.add("C07:panic", "the poller or the writer loop panicked".into(), doc),
+            }
+        }
         // 1c. the PHC's error bound changes while one poller lives (one invocation of the real polling loop, the
         // attribute is a sysfs-like file: same metadata whatever it contains): every poll adds the current value
         {
